@@ -17,6 +17,7 @@ package main
 import (
 	"fmt"
 	"regexp"
+	"slices"
 	"sort"
 	"strconv"
 	"strings"
@@ -289,7 +290,8 @@ func c01run(ops []string, observe bool) (res c01result) {
 		}
 	}()
 	res.verdict = "eq"
-	opt := world.DefaultOptions()
+	// pseudo ops `opt~db=ns/name` (controller option --default-backend-service) configure both pipelines
+	opt, ops := syncOptions(ops)
 	opt.KeepLog = true
 	w := world.NewWorld()
 	p, err := world.NewPipeline(w, opt)
@@ -300,7 +302,19 @@ func c01run(ops []string, observe bool) (res c01result) {
 	defer p.Close()
 	reqs, snis := world.RequestsFor(ops)
 	universe := c01universe(ops)
+	if opt.DefaultBackend != "" {
+		// names tracked by syncDefaultBackend (also when the service never exists in the history)
+		for _, kn := range [][2]string{{string(convtypes.ResourceIngress), "/<default-backend>"},
+			{string(convtypes.ResourceService), opt.DefaultBackend}, {string(convtypes.ResourceEndpoints), opt.DefaultBackend}} {
+			k := convtypes.ResourceType(kn[0])
+			if !slices.Contains(universe[k], kn[1]) {
+				universe[k] = append(universe[k], kn[1])
+				sort.Strings(universe[k])
+			}
+		}
+	}
 	fopt := world.DefaultOptions()
+	fopt.DefaultBackend = opt.DefaultBackend
 	compare := func() bool {
 		f, err := world.NewPipeline(w, fopt)
 		if err != nil {
@@ -364,11 +378,61 @@ func c01case(c *ctx, ops []string) c01result {
 	c.stat(fmt.Sprintf("syncs_%02d", res.syncs), 1)
 	c.stat("partial_syncs", res.partial)
 	c.stat("verdict_"+strings.SplitN(res.verdict, ":", 2)[0], 1)
+	c01optStats(c, ops)
 	return res
+}
+
+// c01optStats: coverage of the option --default-backend-service: histories that set it, and how often its
+// service is absent at the first sync, appears / disappears / changes between two syncs.
+func c01optStats(c *ctx, toks []string) {
+	opt, ops := syncOptions(toks)
+	db := opt.DefaultBackend
+	if db == "" {
+		return
+	}
+	c.stat("opt_db_histories", 1)
+	present, changed, syncs := false, false, 0
+	atSync := false
+	if len(ops) == 0 || ops[len(ops)-1] != "sync" {
+		ops = append(append([]string(nil), ops...), "sync")
+	}
+	for _, o := range ops {
+		switch {
+		case o == "sync":
+			syncs++
+			if syncs == 1 {
+				if !present {
+					c.stat("opt_db_service_absent_at_first_sync", 1)
+				}
+			} else if present != atSync {
+				if present {
+					c.stat("opt_db_service_appears", 1)
+				} else {
+					c.stat("opt_db_service_disappears", 1)
+				}
+			} else if present && changed {
+				c.stat("opt_db_service_or_endpoints_change", 1)
+			}
+			atSync, changed = present, false
+		case strings.HasPrefix(o, "svc+"+db+"!"), strings.HasPrefix(o, "svc~"+db+"!"):
+			present, changed = true, true
+		case o == "svc-"+db:
+			present, changed = false, true
+		case strings.HasPrefix(o, "ep~"+db+"!"), o == "ep-"+db:
+			changed = true
+		}
+	}
 }
 
 // corpus of minimised past failures (each one is the replay of a repaired or known difference)
 var c01corpus = []string{
+	// a certificate shared from another namespace (cross-namespace-secrets-crt: allow) is renewed: the link is
+	// kept under the secret's own namespace/name
+	"cm~cross-namespace-secrets-crt=allow svc+d/app!http:80:8080!- ep~d/app!10.0.1.1:r:app-1 sec+e/tls1!tls!1!a.local ing+d/i1@1!haproxy,-!-!a.local>/:Prefix:app:80!a.local>e/tls1!- sync sec~e/tls1!tls!2!a.local sync",
+	"cm~cross-namespace-secrets-crt=allow svc+d/app!http:80:8080!- ep~d/app!10.0.1.1:r:app-1 ing+d/i1@1!haproxy,-!-!a.local>/:Prefix:app:80!a.local>e/tls1!- sync sec+e/tls1!tls!1!a.local sync sec-e/tls1 sync",
+	// --default-backend-service: a no-op endpoints notification (Shrink puts the old backend object back), then the service goes away
+	"opt~db=d/web svc+d/web!http:80:8080!- ep~d/web!10.0.3.1:r:web-1+10.0.3.2:r:web-2 svc+d/app!http:80:8080!- ep~d/app!10.0.1.1:r:app-1 ing+d/i1@1!haproxy,-!-!a.local>/a:Prefix:app:80!-!- sync ep~d/web!10.0.3.2:r:web-2+10.0.3.1:r:web-1 sync svc-d/web sync",
+	"opt~db=d/web svc+d/web!http:80:8080!- ep~d/web!10.0.3.1:r:web-1 svc+d/app!http:80:8080!- ep~d/app!10.0.1.1:r:app-1 ing+d/i1@1!haproxy,-!-!a.local>/a:Prefix:app:80!-!- sync svc-d/web sync svc+d/web!http:80:8080!- ep~d/web!10.0.3.1:r:web-1 sync",
 	// d291cc7 create+update in one batch
 	"sync ing+d/i1@1!haproxy,-!-!-!-!- ing~d/i1@1!haproxy,-!-!_>/a:_:api:http!-!-",
 	// fb14c7f tls-only hosts pre-tracked
